@@ -320,11 +320,22 @@ impl ShardSplitter {
     async fn run_cutover(&self, progress: &mut SplitProgress) -> Result<()> {
         let old_shard = &progress.old_shard.clone();
 
-        let split_state = self
-            .metadata
-            .get_split_state(old_shard)
-            .await?
-            .ok_or_else(|| crate::Error::Internal("No split in progress".to_string()))?;
+        let split_state = match self.metadata.get_split_state(old_shard).await? {
+            Some(state) => state,
+            // complete_split is the last cut-over step: if the split state is gone and all
+            // earlier sub-steps are recorded, an interrupted attempt already completed it.
+            None if progress.shard_a_created
+                && progress.shard_b_created
+                && progress.old_shard_deactivated =>
+            {
+                info!(
+                    "Cutover for {} had already completed (fence={})",
+                    old_shard, progress.fence_token
+                );
+                return Ok(());
+            }
+            None => return Err(crate::Error::Internal("No split in progress".to_string())),
+        };
 
         if split_state.new_shards.len() != 2 {
             return Err(crate::Error::Internal(format!(
